@@ -12,10 +12,12 @@ package c15
 import (
 	"crypto/sha256"
 	"encoding/hex"
+	"encoding/json"
 	"fmt"
 	"hash"
 	"io"
 	"math/rand/v2"
+	"os"
 	"runtime/debug"
 	"strings"
 	"sync"
@@ -1214,14 +1216,11 @@ func TestCheck(t *testing.T) {
 	r.Assume("a device WriteAt that fails reports exactly the number of bytes it stored; device and hole-source faults have no other side effect")
 	r.Assume("after a failed shrinking Truncate the bytes beyond the requested size may be either kept or discarded (old byte, null byte or hole-source byte accepted)")
 	r.Assume("GetNextRegionOffset may over-report data (allocation granularity) but a reported hole must only contain null bytes")
-	for _, s := range []string{"write-fills-hole-mid-file", "shrink-into-sector-then-regrow", "allocation-split-across-fragments",
+	floors := []string{"write-fills-hole-mid-file", "shrink-into-sector-then-regrow", "allocation-split-across-fragments",
 		"exhaustion-mid-write", "failed-newfile-with-size", "failed-device-write-after-allocation", "sector-reused-by-another-file",
-		"fault-devRead", "fault-holeRead", "fault-holeTruncate", "failed-shrink", "quota-denied", "seek-hole-inside-file", "concurrent-round"} {
-		r.Floor(s, 3)
-	}
+		"fault-devRead", "fault-holeRead", "fault-holeTruncate", "failed-shrink", "quota-denied", "seek-hole-inside-file", "concurrent-round"}
 
-	nStepped := r.Pick(1500, 12000)
-	for i := 0; i < nStepped; i++ {
+	stepped := func(i int) {
 		rng := r.Rand(1, uint64(i))
 		c := genCfg(rng, i)
 		r.Case("stepped case=%d cfg=%+v", i, c)
@@ -1229,9 +1228,51 @@ func TestCheck(t *testing.T) {
 		e.runStepped()
 		e.finishCase()
 	}
+	if rf := r.ReplayFile(); rf != "" {
+		// Re-run exactly the recorded case (stepped cases are
+		// deterministic; concurrent rounds are repeated).
+		mode, idx, err := readReplay(rf)
+		if err != nil {
+			t.Fatalf("cannot read replay file %s: %v", rf, err)
+		}
+		if mode == "stepped" {
+			stepped(idx)
+		} else {
+			for k := 0; k < 20; k++ {
+				runConcurrentRound(r, idx)
+			}
+		}
+		return
+	}
+	for _, s := range floors {
+		r.Floor(s, 3)
+	}
 
-	nRounds := r.Pick(60, 600)
+	nStepped := r.Pick(800, 12000)
+	for i := 0; i < nStepped; i++ {
+		stepped(i)
+	}
+
+	nRounds := r.Pick(40, 600)
 	for i := 0; i < nRounds; i++ {
 		runConcurrentRound(r, i)
 	}
+}
+
+// readReplay extracts mode and case index from a witness file.
+func readReplay(path string) (string, int, error) {
+	b, err := os.ReadFile(path)
+	if err != nil {
+		return "", 0, err
+	}
+	var f struct {
+		Witness struct {
+			Mode string `json:"mode"`
+			Case int    `json:"case"`
+		} `json:"witness"`
+	}
+	if err := json.Unmarshal(b, &f); err != nil {
+		return "", 0, err
+	}
+	return f.Witness.Mode, f.Witness.Case, nil
 }
